@@ -76,9 +76,9 @@ def _is_ancestor(it, a, b):
     return sb.startswith(sa + '/')
 
 def doc_eq(it, got, want_items, sid_uri):
-    """got (PDict) == want_items + {'sid': uri}"""
+    """got (PDict) == want_items + {'sid': uri}; a stored key that is itself 'sid' gives way to the entry of the Sid that is read"""
     if not isinstance(got, PDict): return False
-    want = list(want_items) + [('sid', sid_uri)]
+    want = [(k, v) for k, v in want_items if not it.known_eq(k, 'sid')] + [('sid', sid_uri)]
     if len(got.items) != len(want): return False
     cs = []
     for k, v in want:
